@@ -10,4 +10,7 @@ open Strengths.Gen.PyNumeric
 limited number of digits (the model computes its values exactly and its texts through `repr`) -/
 theorem filepath_full_precision : fullPrecision inv_filepath = true := by decide +kernel
 
+/-- `filepath.py` takes no maximum / minimum / absolute value and swallows no exception: nothing it computes is clamped -/
+theorem filepath_no_clamping : clamp_filepath = [] := by decide +kernel
+
 end Strengths.PyNumeric
